@@ -25,6 +25,9 @@ struct Params {
     frag: usize,
     n_writers: usize,
     n_readers: usize,
+    /// best-effort modes: an additional VOLATILE reader joins after this many ms of writing (the writer
+    /// sends it a GAP for what it missed; that GAP is subject to the same duplication / delay faults)
+    late_joiner_after_ms: Option<i64>,
     keep_last: Option<u32>,
     n_instances: u32,
     n_writes: u32,
@@ -101,11 +104,12 @@ fn gen_params(rng: &mut Rng, mode: Mode, thorough: bool) -> Params {
     } else {
         0
     };
-    Params {
+    let mut p = Params {
         mode,
         frag,
         n_writers: if rng.chance(0.3) { 2 } else { 1 },
         n_readers: if rng.chance(0.3) { 2 } else { 1 },
+        late_joiner_after_ms: None,
         keep_last,
         n_instances: 1 + rng.below(4) as u32,
         n_writes: 5 + rng.below(max_writes - 4) as u32,
@@ -119,7 +123,12 @@ fn gen_params(rng: &mut Rng, mode: Mode, thorough: bool) -> Params {
         clock_tick: *rng.pick(&[0i64, 0, 1, 1000]),
         jitter: *rng.pick(&[0i64, 0, 1000, 1_000_000]),
         max_block_ms: *rng.pick(&[0i64, 10, 100, 1000]),
+    };
+    // drawn last: the other parameters of a case do not depend on it
+    if matches!(mode, Mode::BestEffort | Mode::FragBestEffort) && rng.chance(0.4) {
+        p.late_joiner_after_ms = Some(rng.below((p.n_writes as u64 * (p.write_gap_max_ms as u64 + 1)).max(2)) as i64 + 1);
     }
+    p
 }
 
 trait PlanExt {
@@ -138,6 +147,7 @@ impl Params {
             .set("fragment_size", self.frag)
             .set("writers", self.n_writers)
             .set("readers", self.n_readers)
+            .set("late_joining_reader_after_ms", self.late_joiner_after_ms)
             .set(
                 "writer_history",
                 match self.keep_last {
@@ -338,6 +348,42 @@ async fn scenario(w: World, p: Params) -> Outcome {
                     .take(i32::MAX, ANY_SAMPLE_STATE, ANY_VIEW_STATE, ANY_INSTANCE_STATE)
                     .await
                 {
+                    let mut v = Vec::new();
+                    for s in samples {
+                        if let Some(m) = s.data {
+                            v.push((m.writer, m.seq, m.key, msg_ok(&m)));
+                        }
+                    }
+                    if !v.is_empty() {
+                        log.borrow_mut().takes.push((n, sim2.now(), v));
+                        n += 1;
+                    }
+                }
+                if done {
+                    break;
+                }
+                sim2.sleep(period).await;
+            }
+        }));
+    }
+    let mut rlogs = rlogs;
+    let mut _late_keep = None;
+    if let (false, Some(after_ms)) = (reliable_mode, p.late_joiner_after_ms) {
+        let dp = new_participant(&w, 0).await;
+        let t = new_topic::<Msg>(&dp, "Delivery", "Msg").await;
+        let sb = new_subscriber(&dp).await;
+        let log = Rc::new(RefCell::new(ReaderLog::default()));
+        rlogs.push(log.clone());
+        let (sim2, stop, rq2, sb2, t2) = (sim.clone(), stop.clone(), rq.clone(), sb.clone(), t.clone());
+        let period = p.take_period_ms * MS;
+        _late_keep = Some((dp, t, sb));
+        rjoins.push(sim.spawn_local(async move {
+            sim2.sleep(after_ms * MS).await;
+            let dr = new_reader::<Msg>(&sb2, &t2, rq2).await;
+            let mut n = 0usize;
+            loop {
+                let done = *stop.borrow();
+                if let Ok(samples) = dr.take(i32::MAX, ANY_SAMPLE_STATE, ANY_VIEW_STATE, ANY_INSTANCE_STATE).await {
                     let mut v = Vec::new();
                     for s in samples {
                         if let Some(m) = s.data {
